@@ -20,7 +20,7 @@ DAY = datetime.timedelta(1)
 
 def required(tier):
     return {'drange_equals_iteration': 400, 'strictly_monotone': 400, 'maximal': 300, 'int_timedelta_nd_agree': 100, 'b_weekdays_only': 80, 'away_bump_raises': 80,
-            'single_point': 20, 'termination_step_budget': 500}
+            'single_point': 20, 'termination_step_budget': 500, 'result_is_fresh': 300}
 
 
 def mk_bump(b):
@@ -96,6 +96,13 @@ def run_case(case, ctx):
         ctx.ev('drange_equals_iteration')
         ctx.fail('drange_equals_iteration', 'drange(%s, %s, %r) raised %s; iteration gives %d elements %s...' % (t0, t1, bump, core.exc_str(res), n_exp, exp[:3]))
         return
+    if isinstance(res, list):
+        # the caller owns the list it got: editing it must not affect what a later identical call returns
+        keep = list(res)
+        res.reverse(); res.append('edited-by-caller')
+        st_again, again = ctx.call(drange, t0, t1, bump)
+        ctx.check('result_is_fresh', st_again == 'ok' and list(again) == keep, lambda: 'drange(%s, %s, %r) called again after the caller edited the first result: %s.. (first call gave %s..)' % (t0, t1, bump, again[:4] if st_again == 'ok' else again, keep[:4]))
+        res = keep
     res = list(res)
     ctx.check('drange_equals_iteration', res == exp, lambda: 'drange(%s, %s, %r) = %d elements %s..%s; iterating the bump gives %d elements %s..%s' % (t0, t1, bump, len(res), res[:4], res[-2:], n_exp, exp[:4], exp[-2:]))
     mono = all((b > a) if fwd else (b < a) for a, b in zip(res, res[1:]))
